@@ -1,0 +1,23 @@
+//! Step counter used by the verification harness in /verif (property C18).
+//! Only compiled with `--cfg dnssector_verif`; never part of a normal build.
+use std::cell::Cell;
+
+thread_local! {
+    static STEPS: Cell<u64> = Cell::new(0);
+}
+
+/// One elementary validation step: a label or pointer followed, a record or an option visited.
+#[inline]
+pub fn step() {
+    STEPS.with(|s| s.set(s.get() + 1));
+}
+
+/// Resets the counter of the calling thread.
+pub fn reset() {
+    STEPS.with(|s| s.set(0));
+}
+
+/// Steps counted on the calling thread since the last `reset()`.
+pub fn steps() -> u64 {
+    STEPS.with(|s| s.get())
+}
